@@ -64,6 +64,9 @@ static void mk_copy_pair(IN_wv *in) {
     V_ASSUME(sc->digest != NULL && tc->digest != NULL);
     for(int i = 0; i < G_NFD; i++) { g_fpos[i] = in->pos0[i]; g_wr_bytes[i] = in->wr0[i]; g_rd_bytes[i] = in->rd0[i]; }
     g_io_failed = in->failed0; g_k1 = in->k1; g_k2 = in->k2;
+    /* the watched digest byte lies inside the digest (an index beyond it makes every "for each digest byte" clause vacuous; CBMC 6.11 also
+     * reports a spurious out-of-bounds read inside hash_finalize's assumed contract for such an index) */
+    V_ASSUME(g_k1 < (size_t)sc->digest_size);
     g_hu_hash = in->watch; g_hu_k = in->hu_k; g_hu_total = in->hu_total0; g_hu_seen = in->hu_seen0; g_hu_final = in->hu_final0; g_hu_inits = in->hu_inits0;
     wv_src = src; wv_tgt = tgt; wv_sc = sc; wv_tc = tc;
 }
